@@ -118,9 +118,45 @@ func (c *Ctx) ruleNextDrains(rule string) {
 			return ok && callee(pk, call) == shift
 		})
 	}
+	// for n := len(queue); n > 0; n-- { one shift per round }: as many rounds as there were events
+	drainsFor := func(fs *ast.ForStmt) bool {
+		init, ok := fs.Init.(*ast.AssignStmt)
+		if !ok || len(init.Lhs) != 1 || len(init.Rhs) != 1 || !lenOfQueue(init.Rhs[0]) {
+			return false
+		}
+		cnt, ok := init.Lhs[0].(*ast.Ident)
+		if !ok {
+			return false
+		}
+		obj := pk.TypesInfo.ObjectOf(cnt)
+		be, ok := ast.Unparen(fs.Cond).(*ast.BinaryExpr)
+		if !ok || (be.Op != token.GTR && be.Op != token.NEQ) {
+			return false
+		}
+		if id, ok := ast.Unparen(be.X).(*ast.Ident); !ok || pk.TypesInfo.Uses[id] != obj {
+			return false
+		}
+		if k, isK := constInt(pk, be.Y); !isK || k != 0 {
+			return false
+		}
+		post, ok := fs.Post.(*ast.IncDecStmt)
+		if !ok || post.Tok != token.DEC {
+			return false
+		}
+		if id, ok := ast.Unparen(post.X).(*ast.Ident); !ok || pk.TypesInfo.Uses[id] != obj {
+			return false
+		}
+		return fc.everyRoundPasses(fs, func(m ast.Node) bool {
+			call, ok := m.(*ast.CallExpr)
+			return ok && callee(pk, call) == shift
+		})
+	}
 	outOf := func(b *cfg.Block, i int) bool {
 		v := through(b, len(b.Nodes), in[b])
 		if len(b.Succs) == 2 {
+			if fs, ok := b.Stmt.(*ast.ForStmt); ok && b.Kind == cfg.KindForLoop && i == 1 && drainsFor(fs) {
+				return true
+			}
 			if rs, ok := b.Stmt.(*ast.RangeStmt); ok && b.Kind == cfg.KindRangeLoop && i == 1 && drains(rs) {
 				return true
 			}
